@@ -38,7 +38,8 @@ StoreT == { T("sw", "zero", "a0", "t0", 0, 0), T("sw", "zero", "a0", "t1", 4, 0)
 CtlT == { T("beqz", "zero", "t0", "zero", 0, 2), T("bne", "zero", "t0", "t1", 0, 2),
           T("blt", "zero", "t1", "t2", 0, 3), T("j", "zero", "zero", "zero", 0, 2),
           T("jal", "ra", "zero", "zero", 0, 2), T("bltu", "zero", "t2", "t0", 0, 2),
-          T("ret", "zero", "zero", "zero", 0, 0), T("nop", "zero", "zero", "zero", 0, 0) }
+          T("ret", "zero", "zero", "zero", 0, 0), T("nop", "zero", "zero", "zero", 0, 0),
+          T("beq", "zero", "t1", "t1", 0, 1) }   \* always taken, to the very next instruction: a taken branch that needs no flush
 (* counted backward loop: t3 is the trip counter and no other template writes it *)
 LoopT == { <<T("addi", "t3", "t3", "zero", -1, 0), T("bnez", "zero", "t3", "zero", 0, -k)>> : k \in {2, 3, 4} }
 
